@@ -102,10 +102,9 @@ def reset_frame_state():
     g = sys.modules.get("frame.geometry.geometry")
     if g is not None:
         g.Rectangle.undefine_epsilon()
-    pb = sys.modules.get("tools.rect.pseudobool")
-    if pb is not None:
-        pb.memory[:] = [0, 1]
-        pb.mmap.clear()
+    # tools.rect.pseudobool.memory / mmap (the process-wide ROBDD store) are deliberately NOT reset: node numbers are only
+    # meaningful together with the store, and code that legitimately caches node numbers would break under a reset
+    # that never happens in real use.  The store is append-only and content-addressed, so cases stay independent.
     et = sys.modules.get("tools.legalfloor.expression_tree")
     if et is not None and hasattr(et, "named_variables"):
         try:
